@@ -69,7 +69,7 @@ def parse (msg : Bytes) : Parsed :=
   if msg.isEmpty then ⟨[], 0⟩
   else
     let parts := splitUs msg
-    if parts.length < Facts.C40.minParts then ⟨msg, 0⟩
+    if Facts.C40.tooFewParts (parts.length : Int) then ⟨msg, 0⟩
     else
       match scan parts [] 0 with
       | .error a => ⟨msg, a⟩
@@ -94,14 +94,15 @@ def wrap64 (x : Int) : Int := (x + 2 ^ 63) % 2 ^ 64 - 2 ^ 63
 /-- `tgerr.FloodWaitErrors` (regenerated: the values of the two constants, in list order). -/
 def floodTypes : List Bytes := Facts.C40.floodWaitErrors
 
-/-- `AsFloodWait`: `time.Second * time.Duration(rpcErr.Argument)` for the first matching type. -/
+/-- `AsFloodWait`: the duration expression of the source (translated: `Facts.C40.floodDuration`)
+for the first matching type, in int64 arithmetic. -/
 def asFloodWait (e : Parsed) : Option Int :=
-  if floodTypes.contains e.type then some (wrap64 ((Facts.C40.secondNs : Int) * (e.arg : Int))) else none
+  if floodTypes.contains e.type then some (wrap64 (Facts.C40.floodDuration (e.arg : Int))) else none
 
-/-- The duration `FloodWait` hands to `clock.Timer`: `d + 1*time.Second`. -/
+/-- The duration `FloodWait` hands to `clock.Timer` (translated: `Facts.C40.floodTimerArg d`). -/
 def floodTimer (e : Parsed) : Option Int :=
   match asFloodWait e with
-  | some d => some (wrap64 (d + (Facts.C40.marginNs : Int)))
+  | some d => some (wrap64 (Facts.C40.floodTimerArg d))
   | none => none
 
 inductive WaitResult where
@@ -115,5 +116,65 @@ def floodWait (e : Parsed) (ctxDoneFirst : Bool) : WaitResult :=
   match floodTimer e with
   | some _ => if ctxDoneFirst then .cancelled else .waited
   | none => .notFlood
+
+/-- `FloodWait`'s `select` as a relation: the results possible when the timer has fired and/or the
+context is done (Go chooses among ready cases at random; with none ready the call blocks: `[]`). -/
+def floodWaitOutcomes (e : Parsed) (timerFired ctxDone : Bool) : List WaitResult :=
+  match floodTimer e with
+  | none => [.notFlood]
+  | some _ => (if timerFired then [.waited] else []) ++ (if ctxDone then [.cancelled] else [])
+
+/-! ### Matching helpers: `As`, `AsType`, `Is`, `IsCode`, `Error()`
+
+`errors.As(err, &rpcErr)` walks the `Unwrap` chain and stops at the first `*tgerr.Error`
+(`*Error` has no `Unwrap`).  The chain is therefore represented by what that search finds:
+`none` (nil error, or no `*Error` in the chain) or the first `*Error`. -/
+
+structure RpcErr where
+  code : Int
+  msg : Bytes
+  type : Bytes
+  arg : Nat
+  deriving Repr, DecidableEq
+
+/-- `tgerr.New(code, msg)`. -/
+def newErr (code : Int) (msg : Bytes) : RpcErr :=
+  let p := parse msg
+  ⟨code, msg, p.type, p.arg⟩
+
+/-- `tgerr.As`. -/
+def asErr (first : Option RpcErr) : Option RpcErr := first
+/-- `tgerr.AsType(err, t)`. -/
+def asType (first : Option RpcErr) (t : Bytes) : Option RpcErr :=
+  match first with
+  | some e => if e.type = t then some e else none
+  | none => none
+/-- `(*Error).IsOneOf` / `tgerr.Is(err, tt...)`. -/
+def isOneOf (first : Option RpcErr) (tt : List Bytes) : Bool :=
+  match first with
+  | some e => tt.any (fun t => e.type = t)
+  | none => false
+/-- `tgerr.IsCode(err, codes...)`. -/
+def isCode (first : Option RpcErr) (codes : List Int) : Bool :=
+  match first with
+  | some e => codes.any (fun c => e.code = c)
+  | none => false
+
+/-- `AsFloodWait` on an error chain: first matching entry of `FloodWaitErrors`. -/
+def asFloodWaitErr (first : Option RpcErr) : Option Int :=
+  match first with
+  | some e => asFloodWait ⟨e.type, e.arg⟩
+  | none => none
+
+/-- Signed decimal (`%d`). -/
+def decimalInt (i : Int) : Bytes := if i < 0 then 45 :: decimal i.natAbs else decimal i.natAbs
+
+def strBytes (s : String) : Bytes := s.toUTF8.toList
+
+/-- `(*Error).Error()`. -/
+def errorString (e : RpcErr) : Bytes :=
+  if e.type ≠ e.msg then
+    strBytes "rpc error code " ++ decimalInt e.code ++ strBytes ": " ++ e.type ++ strBytes " (" ++ decimal e.arg ++ strBytes ")"
+  else strBytes "rpc error code " ++ decimalInt e.code ++ strBytes ": " ++ e.msg
 
 end TdModel.C40
